@@ -152,6 +152,21 @@ def corpus(name, mod=None):
                         out.append(cand)
                 except Exception:
                     pass
+    # GS1-128: element strings with several variable-length values, one of them of its maximum length (the corpus of the
+    # module documents only short ones), built from the application identifier table
+    if name == 'gs1_128':
+        try:
+            from props import c16
+            var = [r for r in c16.table() if r['parsed'] and r['fnc1'] and r['type'] == 'str' and len(r['parts']) == 1
+                   and r['parts'][0]['cls'] == 'X' and r['parts'][0]['min'] < r['parts'][0]['max']][:6]
+            for i in range(0, len(var) - 2):
+                a, b, c = var[i], var[i + 1], var[i + 2]
+                full = ('ABCDEFGHIJ0123456789' * 5)[:a['parts'][0]['max']]
+                for cand in ('(%s)%s(%s)S1(%s)X' % (a['ai'], full, b['ai'], c['ai']), '(%s)S1(%s)%s(%s)X' % (b['ai'], a['ai'], full, c['ai'])):
+                    if mod.is_valid(cand) is True and cand not in out:
+                        out.append(cand)
+        except Exception:
+            pass
     _corpus_cache[name] = out
     return out
 
